@@ -57,7 +57,8 @@ def run(prop, tier, seed):
                 base = [x for x in g if not x[0].startswith("-N")]
                 groups.append(base)
                 if short:
-                    groups.append([["-N" + short + v], ["-N", "-" + short, v], ["--forward", name + "=" + v]])
+                    groups.append([["-N" + short + v], ["-N", "-" + short, v], ["--forward", name + "=" + v], ["-N" + short, v]])
+                    groups.append([["-lN" + short, v], ["-l", "-N", "-" + short + v]])
                 # operands before / after
                 groups.append([["f"] + base[0], base[0] + ["f"], ["f"] + base[-1]])
             bad_lines.append([name])                 # missing argument
